@@ -74,6 +74,23 @@ func C19(c *Ctx) {
 		n := 0
 		for _, f := range core.WithClosures(ra) {
 			isRemoval := or(func(in ssa.Instruction) bool {
+				// a get-or-create helper that appends to the per-account map it receives (appendAccountTx(m, account, tx))
+				if call, isCall := in.(ssa.CallInstruction); isCall {
+					h := core.StaticCallee(call)
+					if h == nil || len(h.Blocks) == 0 || core.PkgOf(h) != core.PkgOf(ra) {
+						return false
+					}
+					for _, b := range h.Blocks {
+						for _, x := range b.Instrs {
+							if mu, ok := x.(*ssa.MapUpdate); ok && strings.Contains(mu.Map.Type().String(), "map[string][]") && strings.Contains(mu.Map.Type().String(), "pb.Transaction") {
+								if _, isPar := core.Strip(mu.Map).(*ssa.Parameter); isPar {
+									return true
+								}
+							}
+						}
+					}
+					return false
+				}
 				mu, ok := in.(*ssa.MapUpdate)
 				if !ok || !strings.Contains(mu.Map.Type().String(), "map[string][]") || !strings.Contains(mu.Map.Type().String(), "pb.Transaction") {
 					return false
@@ -144,7 +161,7 @@ func C19(c *Ctx) {
 			c.behindEdges("R19.1", "RemoveAliveTimeoutTxs", f, getEdges("priorityIndex", true), isRemoval, "not in the ready (priority) index", "eviction")
 			c.behindEdges("R19.1", "RemoveAliveTimeoutTxs", f, getEdges("parkingLotIndex", false), isRemoval, "present in the parking-lot index", "eviction")
 		}
-		r.Floor("R19.1", "eviction sites", n, 2)
+		r.Floor("R19.1", "eviction sites", n, 2) // the record for removal and the hash drop (3 on the pinned tree: make, append, delete)
 	}
 
 	// R19.2
